@@ -91,6 +91,17 @@ func (fr *Frame) call(c *ssa.CallCommon, instr ssa.Instruction, st *State, reach
 		return res
 	}
 	if b, ok := c.Value.(*ssa.Builtin); ok {
+		if k := fr.callOrd[instr]; k > 0 && fr.fc != nil {
+			short := b.Name()
+			for ci := range fr.fc.CallAssert {
+				ca := &fr.fc.CallAssert[ci]
+				if ca.Callee == short && ca.K == k {
+					ca.Matched = true
+					env := fr.specEnvAt(st, fmt.Sprintf("assert@call %s#%d", short, k), instr.Pos())
+					fr.obligeParts(fmt.Sprintf("call.%s@%d.assert%s", short, k, labelSuffix(ca.C)), "call-assert", reach, env, ca.C)
+				}
+			}
+		}
 		return fr.builtin(b, c, instr, st, reach)
 	}
 	var args []Val
